@@ -51,4 +51,24 @@ def mailstdOp : List String → String
     | none => "BADLINE"
   | _ => "BADLINE"
 
+def isInfix (a b : Bytes) : Bool := (List.range (b.length + 1 - a.length)).any fun i => (b.drop i).take a.length == a
+
+/-- `urlcred <url> <secrets> | sync async`: whatever `from_url` answers, neither its error text nor the Debug text of the
+    builder contains a spelling (as written in the URL, or percent-decoded) of the user name's or password's secret
+    part (credentials never appear in debug output or error text) -/
+def urlcredOp : List String → String
+  | [_url, secrets, rs, ra] =>
+    if rs == "PANIC" then propfail "panic" else
+    match hexList secrets with
+    | some sec =>
+      let bad (r : String) : Bool :=
+        match r.splitOn ":" with
+        | [_, t] => match ofHex t with
+          | some txt => sec.any fun pw => pw.length ≥ 3 && isInfix pw txt
+          | none => false
+        | _ => false
+      if bad rs || bad ra then propfail "credential-appears-in-error-or-debug-text" else "ok"
+    | none => "BADLINE"
+  | l => if l.getLast? == some "PANIC" then propfail "panic" else "BADLINE"
+
 end LV.Driver.C04
